@@ -814,6 +814,34 @@ void MEDDLY::copy_EV<EdgeOp>::_compute(int L, unsigned in,
         //
 
         // if (OMEGA_INFINITY == ap) then what???
+        if ((OMEGA_INFINITY == ap) && (argF->isEVPlus() || argF->isIndexSet())) {
+            //
+            // The source value is +infinity (the edge value is irrelevant).
+            // Keep it if the result forest can represent it;
+            // otherwise there is no value to convert it to.
+            //
+            if (resF->isEVPlus() || resF->isIndexSet()) {
+                resF->getEdgeForValue(
+                    rangeval(range_special::PLUS_INFINITY, range_type::INTEGER),
+                    cv, cp
+                );
+                return;
+            }
+            if (resF->isMultiTerminal() &&
+                    (terminal_type::BOOLEAN == resF->getTerminalType()))
+            {
+                // non-zero becomes true
+                cv.set();
+                cp = resF->handleForValue(true);
+                if (argF->isIdentityReduced()) {
+                    cp = resF->makeIdentitiesTo(cp, 0, L, in);
+                } else {
+                    cp = resF->makeRedundantsTo(cp, 0, L);
+                }
+                return;
+            }
+            throw error(error::VALUE_OVERFLOW, __FILE__, __LINE__);
+        }
 
         if (resF->isMultiTerminal()) {
             //
